@@ -18,11 +18,11 @@ type BranchCase struct {
 	Mode     int    `json:"mode"`
 	Org      int64  `json:"org"`
 	Mn       string `json:"mn"`
-	Kind     string `json:"kind"`   // fwd | bwd | num | far | chain | dollar ($+Rel as the target)
+	Kind     string `json:"kind"` // fwd | bwd | num | far | chain | dollar ($+Rel as the target)
 	Rel      int64  `json:"rel,omitempty"`
 	Widen    bool   `json:"widen,omitempty"` // a Jcc over 200 reserved bytes in front: the program needs a second assembly round
-	Filler   int    `json:"filler"` // bytes between branch and target (fwd: after the branch; bwd: between target and branch)
-	Pad      int    `json:"pad"`    // NOPs before everything
+	Filler   int    `json:"filler"`          // bytes between branch and target (fwd: after the branch; bwd: between target and branch)
+	Pad      int    `json:"pad"`             // NOPs before everything
 	Trailing bool   `json:"trailing"`
 	Target   int64  `json:"target,omitempty"` // num
 	Seg      int64  `json:"seg,omitempty"`    // far
